@@ -4,7 +4,7 @@
 use crate::content::{self, Palette, Spelling};
 use crate::ops::{Op, Query, apply_to_model};
 use crate::run::Config;
-use crate::world::{Model, SLOT_A, SLOT_A_SIG, SLOT_B, SLOT_B_SIG, SLOT_E, SLOT_INPUT, SLOT_MAIN, SLOT_ROOT, SLOTS, Status, companion_of};
+use crate::world::{Model, SLOT_A, SLOT_A_SIG, SLOT_B, SLOT_B_SIG, SLOT_E, SLOT_INPUT, SLOT_MAIN, SLOT_ROOT, SLOTS, Status};
 use zysim_common::Rng;
 
 pub struct Generated {
@@ -29,7 +29,7 @@ pub fn history(seed: u64, focus: &str, faults: bool, thorough: bool) -> Generate
     let extra = rng.range(1, if graph_focus { 6 } else { 5 });
     active.extend(others.into_iter().take(extra));
     if config.symlinks {
-        for slot in [SLOT_A, SLOT_E] {
+        for slot in [SLOT_A, SLOT_E, SLOT_B_SIG] {
             if !active.contains(&slot) {
                 active.push(slot);
             }
@@ -88,12 +88,7 @@ pub fn history(seed: u64, focus: &str, faults: bool, thorough: bool) -> Generate
     }
     let palette_slots: Vec<usize> = active.clone();
     let mut model = Model::new(config.symlinks);
-    if config.symlinks {
-        // mirrors Executor::execute
-        for slot in [SLOT_A, SLOT_E] {
-            model.slots[slot].disk = crate::world::Disk::File(content::Content::plain("int1", "1", content::Class::Closed));
-        }
-    }
+    model.pin(); // mirrors Executor::execute
     let mut ops: Vec<Op> = Vec::new();
     let palette = Palette { slots: &palette_slots, symlinks: config.symlinks, allow_exec, allow_missing: true };
 
@@ -168,7 +163,7 @@ pub fn history(seed: u64, focus: &str, faults: bool, thorough: bool) -> Generate
             follow_up = match &op {
                 | Op::Ask { root, .. } | Op::AskSnapshot { root, .. } => {
                     // a companion that was just probed as absent appears; or a provider changes
-                    let companion = companion_of(*root).filter(|c| active.contains(c));
+                    let companion = model.companion_of(*root).filter(|c| active.contains(c));
                     let provider = imported_by(&model, *root).into_iter().find(|s| active.contains(s));
                     match (companion, provider, rng.below(3)) {
                         | (Some(companion), _, 0) => Some(Op::SetOverlay {
